@@ -43,6 +43,19 @@ func init() {
 		zz + "IteInt": func(e *Exec, _ *frame, _ token.Pos, _ *ssa.Function, a []Value) Value {
 			return e.ts.Ite(a[0].(*Term), a[1].(*Term), a[2].(*Term))
 		},
+		zz + "ByteIn": func(e *Exec, _ *frame, _ token.Pos, _ *ssa.Function, a []Value) Value {
+			b := a[0].(*Term)
+			set := e.concStr(a[1], "ByteIn set")
+			r := e.ts.False
+			for i := 0; i < len(set); i++ {
+				r = e.ts.Or(r, e.ts.Eq(b, e.ts.Const(8, uint64(set[i]))))
+			}
+			return r
+		},
+		zz + "ByteRange": func(e *Exec, _ *frame, _ token.Pos, _ *ssa.Function, a []Value) Value {
+			b := a[0].(*Term)
+			return e.ts.And(e.ts.Cmp(OpULe, a[1].(*Term), b), e.ts.Cmp(OpULe, b, a[2].(*Term)))
+		},
 		zz + "Implies": func(e *Exec, _ *frame, _ token.Pos, _ *ssa.Function, a []Value) Value {
 			return e.ts.Implies(a[0].(*Term), a[1].(*Term))
 		},
